@@ -9,7 +9,7 @@
    into place and update the fragment's setting.  I/O failure is an arbitrary
    predicate on fields (Section variable). *)
 From Coq Require Import ZArith List Bool Lia.
-From GD Require Import C04.Bytes C04.BytesProofs C13.Recode C13.RecodeProofs.
+From GD Require Import C04.Bytes C04.BytesProofs C03.Write C13.Recode C13.RecodeProofs.
 Import ListNotations.
 
 Record cfg := mkCfg { c_enc : codec; c_sex : sexflags; c_off : Z }.
